@@ -180,7 +180,7 @@ PROPS["C14"] = {
     "technique": "Verus contracts on the extracted ShardSplitter::execute_split_with_monitoring, resume_split, run_from_phase, SplitProgress::next_phase (ghost event log: the split is announced only after its progress file exists; a resumed split carries out exactly the phases after the recorded one, each once, in protocol order, clean-up last and only after the cut-over; on interruption only a prefix ran and the progress file never records a phase that was not carried out) and run_cutover (over a ghost catalog whose every request may fail before or after taking effect: every exit state is resumable, success = the state of an uninterrupted cut-over, no fault => success), run_backfill_with_progress (per-source bookkeeping never names a source that is not completely copied, at every exit; each non-empty side of each batch is written under the path of its own target shard, source, batch index and partition label; success = every source chunk copied and recorded), the partition loop of split_batch (C15 unit); Kani on the extracted SplitPhase enum and next_phase (discriminant order = protocol order, successor function)",
     "verus": ["c14_split.rs.in", "c15_split.rs.in"],
     "kani": ["c14_phases"],
-    "explanation": "Decided for the phase engine (resume point, order, bookkeeping never ahead of work), for crash-consistency of the cut-over sub-steps, and for row partition of one batch. Not under contract: write_chunk_to_path (put then register), the string format of backfill_chunk_path (assumed injective), clean-up's delete loop, and the composition 'resume as often as needed reaches the same final state' as an induction over whole histories - the per-call contracts (every exit resumable + what remains is a suffix of the protocol) are its inductive step, the induction itself is not mechanised. Defects F17/F17b found by these contracts were repaired.",
+    "explanation": "Decided for the phase engine (resume point, order, bookkeeping never ahead of work), for crash-consistency of the cut-over sub-steps, and for row partition of one batch. Also under contract: write_chunk_to_path (object and catalog entry under the same path, row count and true min / max of the written data) and clean-up's delete loop (only the old shard's chunks). Not under contract: the string format of backfill_chunk_path (assumed injective), and the composition 'resume as often as needed reaches the same final state' as an induction over whole histories - the per-call contracts (every exit resumable + what remains is a suffix of the protocol) are its inductive step, the induction itself is not mechanised. Defects F17/F17b found by these contracts were repaired.",
     "assumptions": [
         "each phase body is abstracted by one event (Ran(phase)) that either happens completely or fails without a visible effect on the event log; the cut-over unit refines this for Cutover, the other phases' internal crash-consistency is not under contract",
         "persist_progress may fail before or after taking effect; load_progress returns what was last persisted (object-store read-after-write)",
